@@ -56,6 +56,9 @@ func installHook() {
 func lockWaits() uint64 { return sLockWaits }
 
 //go:norace
+func foreignCalls() uint64 { return sForeign }
+
+//go:norace
 func schedStats() (steps, switches, inflight, hash, gc, delivered uint64, rec []SwRec, trunc bool, stall uint64) {
 	rec = make([]SwRec, sRecN)
 	copy(rec, sRec[:sRecN])
@@ -97,8 +100,29 @@ func sigOf(s *RunSpec, rec []SwRec) uint64 {
 }
 
 // executeRun performs one run and returns its report and violations.
+// runWatchdog aborts the worker when one run takes implausibly long: the simulation is stuck - typically a
+// task was descheduled inside code that another task then blocks on FOR REAL (a blocking primitive inside an
+// uninstrumented dependency, a wait the instrumenter did not recognise).  Exit code 5 tells the coordinator
+// to repeat the batch operation-granular, where no task is ever descheduled inside an operation.
+var runWatchdog *time.Timer
+
+func armWatchdog(limit time.Duration, what string) {
+	if runWatchdog != nil {
+		runWatchdog.Stop()
+	}
+	runWatchdog = time.AfterFunc(limit, func() {
+		fmt.Fprintf(os.Stderr, "simulation stuck for %s in %s: goroutine dump follows\n", limit, what)
+		buf := make([]byte, 1<<20)
+		n := runtime.Stack(buf, true)
+		os.Stderr.Write(buf[:n])
+		os.Exit(5)
+	})
+}
+
 func executeRun(s *RunSpec, runIdx int, racePath string) (doneEv, *violEv) {
 	t0 := time.Now() // wall time is reported only; it never feeds a decision
+	armWatchdog(watchdogLimit, fmt.Sprintf("run %d (seed %d)", runIdx, s.Seed))
+	defer runWatchdog.Stop()
 	var pre *world
 	if s.PreRef && !s.Cold {
 		pre = runReference(s)
@@ -179,6 +203,7 @@ func executeRun(s *RunSpec, runIdx int, racePath string) (doneEv, *violEv) {
 	d.Faults["preempt_in_op"] = int(inflight)
 	d.Faults["gc"] = int(gcFired)
 	d.Faults["lock_wait"] = int(lockWaits())
+	d.Faults["foreign_goroutine_hook_calls"] = int(foreignCalls())
 	d.Faults["stall"] = int(stall)
 	d.Faults["delivered"] = int(delivered)
 	d.Faults["dup_planned"] = s.Plan.Dup
@@ -218,6 +243,8 @@ func executeRun(s *RunSpec, runIdx int, racePath string) (doneEv, *violEv) {
 
 var opCounts = map[string]map[string]int{}
 
+var watchdogLimit = 60 * time.Second
+
 func endReport(runs int) endEv {
 	e := endEv{Ev: "end", Runs: runs, NumSites: len(hook.Sites), NumLabel: numLabels, OpOnly: hook.OpOnly, OpCounts: opCounts}
 	for i, c := range siteHit {
@@ -244,8 +271,11 @@ func main() {
 	genOnly := flag.Bool("gen", false, "print the run specs of the batch instead of executing them")
 	upto := flag.Int("upto", -1, "with -gen: only runs 0..upto")
 	noCold := flag.Bool("nocold", false, "no cold first run")
+	forceOp := flag.Bool("forceop", false, "operation-granular scheduling for every run (retry of a stuck batch)")
+	wd := flag.Int("watchdog", 60, "seconds after which a single run is declared stuck (exit 5)")
 	cpuprof := flag.String("cpuprofile", "", "write a CPU profile (development aid)")
 	flag.Parse()
+	watchdogLimit = time.Duration(*wd) * time.Second
 	if *cpuprof != "" {
 		if f, err := os.Create(*cpuprof); err == nil {
 			_ = pprof.StartCPUProfile(f)
@@ -292,7 +322,7 @@ func main() {
 	for j := 0; j < *runs; j++ {
 		seed := br.u64()
 		cold := j == 0 && !*noCold
-		specs = append(specs, genSpec(seed, cold, hook.OpOnly, *tier))
+		specs = append(specs, genSpec(seed, cold, hook.OpOnly || *forceOp, *tier))
 	}
 	if *genOnly {
 		n := len(specs)
